@@ -109,3 +109,23 @@ MUTANTS += [
     ("c17-exponent-hardcoded", "C17", [(K, "        key.e\n    )", "        65537\n    )")]),
     ("c17-cryptography-sha256", "C17", [("adb_shell/auth/sign_cryptography.py", "utils.Prehashed(hashes.SHA1())", "utils.Prehashed(hashes.SHA1()) if data[0] < 0xf0 else hashes.SHA1()")]),
 ]
+MUTANTS += [
+    ("c06-lifo-store", "C06", [(H, "        self._dict[arg1][arg0].put_nowait((cmd, data))", "        q = self._dict[arg1][arg0]\n        items = [(cmd, data)]\n        while not q.empty():\n            items.append(q.get_nowait())\n        for it in items:\n            q.put_nowait(it)")]),
+    ("c06-skip-second-store-lookup", "C06", [(D, "            with self._transport_lock:\n                # Try reading from the store (again) in case a packet got added while waiting to acquire the transport lock\n                with self._store_lock:\n                    # Recall that `arg0` from the device corresponds to `adb_info.remote_id` and `arg1` from the device corresponds to `adb_info.local_id`\n                    arg0_arg1 = self._packet_store.find(adb_info.remote_id, adb_info.local_id) if not allow_zeros else self._packet_store.find_allow_zeros(adb_info.remote_id, adb_info.local_id)\n                    while arg0_arg1:",
+                                              "            with self._transport_lock:\n                with self._store_lock:\n                    arg0_arg1 = None\n                    while arg0_arg1:")]),
+    ("c06-skip-second-store-lookup-async", "C06", [(A, "            async with self._transport_lock:\n                # Try reading from the store (again) in case a packet got added while waiting to acquire the transport lock\n                async with self._store_lock:\n                    # Recall that `arg0` from the device corresponds to `adb_info.remote_id` and `arg1` from the device corresponds to `adb_info.local_id`\n                    arg0_arg1 = self._packet_store.find(adb_info.remote_id, adb_info.local_id) if not allow_zeros else self._packet_store.find_allow_zeros(adb_info.remote_id, adb_info.local_id)\n                    while arg0_arg1:",
+                                                    "            async with self._transport_lock:\n                async with self._store_lock:\n                    arg0_arg1 = None\n                    while arg0_arg1:")]),
+    ("c06-park-wrong-key", "C06", [(D, "                        self._packet_store.put(arg0, arg1, cmd, data)", "                        self._packet_store.put(arg1, arg0, cmd, data)")]),
+    ("c06-deliver-foreign-wrte", "C06", [(H, "return arg1 in (0, self.local_id) and (self.remote_id is None or arg0 in (0, self.remote_id))", "return (self.remote_id is None or arg0 in (0, self.remote_id))")]),
+    ("c06-lock-order-inverted", "C06", [(D, "        with self._transport_lock:\n            self._transport.close()\n\n            with self._store_lock:\n                self._packet_store.clear_all()", "        with self._store_lock:\n            with self._transport_lock:\n                self._transport.close()\n                self._packet_store.clear_all()")]),
+    ("c06-send-holds-store-lock-then-transport", "C06", [(D, "        with self._transport_lock:\n            self._send(msg, adb_info)", "        with self._store_lock:\n            with self._transport_lock:\n                self._send(msg, adb_info)")]),
+    ("c06-drop-parked-okay", "C06", [(D, "                    with self._store_lock:\n                        self._packet_store.put(arg0, arg1, cmd, data)", "                    with self._store_lock:\n                        if cmd != constants.OKAY or arg1 % 2:\n                            self._packet_store.put(arg0, arg1, cmd, data)")]),
+]
+MUTANTS += [
+    ("c06-park-after-releasing-transport-lock", "C06", [
+        (D, "                if not adb_info.args_match(arg0, arg1, allow_zeros):\n                    # The packet is not a match -> put it in the store\n                    with self._store_lock:\n                        self._packet_store.put(arg0, arg1, cmd, data)\n\n                else:",
+            "                to_park = None\n                if not adb_info.args_match(arg0, arg1, allow_zeros):\n                    to_park = (arg0, arg1, cmd, data)\n\n                else:"),
+        (D, "            # Check if time is up\n            if time.time() - start > adb_info.read_timeout_s:\n                break\n\n        # Timeout\n        raise exceptions.AdbTimeoutError(\"Never got one of the expected responses: {} (transport_timeout_s = {}, read_timeout_s = {})\".format(expected_cmds, adb_info.transport_timeout_s, adb_info.read_timeout_s))\n\n    def send",
+            "            if to_park is not None:\n                with self._store_lock:\n                    self._packet_store.put(*to_park)\n\n            # Check if time is up\n            if time.time() - start > adb_info.read_timeout_s:\n                break\n\n        # Timeout\n        raise exceptions.AdbTimeoutError(\"Never got one of the expected responses: {} (transport_timeout_s = {}, read_timeout_s = {})\".format(expected_cmds, adb_info.transport_timeout_s, adb_info.read_timeout_s))\n\n    def send"),
+    ]),
+]
